@@ -138,6 +138,9 @@ func (in *Interp) registerIntrinsics(reg func(string, extFn)) {
 		}
 		return Str{S: string(out)}
 	})
+	r("vfRegexEquivLiterals", func(in *Interp, fr *frame, fn *ssa.Function, args []Value) Value {
+		return in.regexEquivIntrinsic(fr, fn, args)
+	})
 	r("vfSteps", func(in *Interp, fr *frame, fn *ssa.Function, args []Value) Value {
 		return in.mkInt(in.path.Steps)
 	})
@@ -318,6 +321,10 @@ func (in *Interp) recordViolation(kind, msg string, m Model, fr *frame) {
 func (in *Interp) vectorFromModel(m Model) []VecEntry {
 	var out []VecEntry
 	for _, n := range in.path.Nondets {
+		if n.Kind == "str" {
+			out = append(out, VecEntry{Kind: "str", Val: fmt.Sprintf("%x", n.Str)})
+			continue
+		}
 		if n.Var == nil {
 			out = append(out, VecEntry{Kind: n.Kind, Val: fmt.Sprint(n.Val)})
 			continue
